@@ -44,6 +44,14 @@ type refEntry struct {
 	displayName *string
 	order       int
 	showHat     bool
+	props       []refProp // profile properties sent with ADD_PLAYER
+	chat        []byte    // nil: "no chat session"; else the encoded session (uuid, expiry, key, signature)
+}
+
+// refProp is one profile property; sig == nil: unsigned (the optional signature is absent).
+type refProp struct {
+	name, value string
+	sig         *string
 }
 
 // ---------------------------------------------------------------- primitives
@@ -268,9 +276,18 @@ func refEncodeUpdate(p proto.Protocol, actions []int, entries []refEntry) []byte
 			switch a {
 			case actAdd:
 				b = putString(b, e.name)
-				b = putVarInt(b, 0) // no properties
+				b = putVarInt(b, len(e.props))
+				for _, pr := range e.props {
+					b = putString(b, pr.name)
+					b = putString(b, pr.value)
+					b = putBool(b, pr.sig != nil)
+					if pr.sig != nil {
+						b = putString(b, *pr.sig)
+					}
+				}
 			case actChat:
-				b = putBool(b, false)
+				b = putBool(b, e.chat != nil)
+				b = append(b, e.chat...)
 			case actGameMode:
 				b = putVarInt(b, e.gameMode)
 			case actListed:
